@@ -209,8 +209,8 @@ func (c *Checker) plans() []runPlan {
 		return ps
 	case "C06":
 		return []runPlan{
-			{Build: BuildCfg{Corpus: corp}, Runs: 3, Label: "plain"},
-			{Build: BuildCfg{Corpus: corp, Knobs: map[string]string{"defaultDecoderMemSize": "256"}}, Runs: 2, Label: "plain+block=256"},
+			{Build: BuildCfg{Corpus: corp}, Runs: 2, Label: "plain"},
+			{Build: BuildCfg{Corpus: corp, Stmt: true, Knobs: map[string]string{"defaultDecoderMemSize": "256"}}, Runs: 3, Label: "stmt-yields+block=256"},
 			// statement-granularity yields: two decodes that (wrongly) share an allocator only collide if a switch
 			// falls between reading and advancing its cursor
 			{Build: BuildCfg{Corpus: corp, Stmt: true}, Runs: 5, Label: "plain+stmt-yields"},
